@@ -210,6 +210,63 @@ pub fn c19_map_iters<const N: usize, const W: u8>() {
     same_list_any_order(&buf, pairs, &rk[..rn], &rv[..rn]);
 }
 
+/// zero-sized key and value: every slot has the same address, so a Debug helper that walks a pointer range lists
+/// nothing.  W 0..8 as in `c19_map_iters`; 9 Map `{:?}`, 10 Map `{}`, 11 Set `{:?}`
+#[derive(PartialEq, Eq, Clone, Copy)]
+pub struct Z;
+impl fmt::Display for Z { fn fmt(&self, f: &mut fmt::Formatter<'_>) -> fmt::Result { f.write_char('z') } }
+impl fmt::Debug for Z { fn fmt(&self, f: &mut fmt::Formatter<'_>) -> fmt::Result { f.write_char('z') } }
+pub fn c19_zst<const N: usize, const W: u8>() {
+    let mut m: Map<Z, Z, N> = unsafe { vf::garbage() };
+    vf::assume(m.len() == 0);
+    let (put, del, j) = (vf::any_bool(), vf::any_bool(), vf::any_usize());
+    if put { vf::check(m.insert(Z, Z).is_none(), 100); }
+    if put && del { vf::check(m.remove(&Z).is_some(), 100); }
+    let n = if put && !del { 1usize } else { 0 };
+    vf::assume(j <= n);
+    let mut buf = Buf::new();
+    let mut rn = 0usize;
+    macro_rules! go {
+        ($mk:expr) => {{
+            let mut it = $mk;
+            if j > 0 { let _ = it.next(); }
+            let r = write!(buf, "{:?}", it);
+            for _x in it { rn += 1; }
+            r
+        }};
+    }
+    if n > 0 { vf::reach(1); } else { vf::reach(2); }
+    let zs = [b'z'; 1];
+    if W >= 9 {
+        let mut exp = Buf::new();
+        let seq = [(b'z', b'z')];
+        let r = match W {
+            9 => { exp_pairs(&mut exp, &seq[..n], b'{', b'}', false, false); write!(buf, "{:?}", m) }
+            10 => { exp_pairs(&mut exp, &seq[..n], b'{', b'}', false, false); write!(buf, "{}", m) }
+            _ => { let mut s: Set<Z, N> = empty_set(); if n > 0 { s.insert(Z); } exp_items(&mut exp, &zs[..n], b'{', b'}', false); write!(buf, "{:?}", s) }
+        };
+        vf::check(r.is_ok(), 1903);
+        same(&buf, &exp);
+        vf::check(m.len() == n, 1904);
+        return;
+    }
+    let (ok, pairs) = match W {
+        0 => (go!(m.iter()), true),
+        1 => (go!(m.keys()), false),
+        2 => (go!(m.values()), false),
+        3 => (go!(m.iter_mut()), true),
+        4 => (go!(m.values_mut()), false),
+        5 => (go!(m.drain()), true),
+        6 => (go!(m.into_iter()), true),
+        7 => (go!(m.into_keys()), false),
+        _ => (go!(m.into_values()), false),
+    };
+    vf::check(ok.is_ok(), 1903);
+    vf::check(rn == n - j, 1901);
+    let rn = if rn < 1 { rn } else { 1 };
+    same_list_any_order(&buf, pairs, &zs[..rn], &zs[..rn]);
+}
+
 /// Debug of the lazy set-algebra iterators after a consumption prefix
 pub fn c19_set_iters<const N: usize, const M: usize, const W: u8>() {
     let (a, _) = any_d_set::<N>();
@@ -323,7 +380,9 @@ harnesses! {
     c19_set: [0, 0] [0, 1] [0, 2] [1, 0] [1, 1] [1, 2] [2, 0] [2, 1] [2, 2] [1, 3] [2, 3];
     c19_map_iters: [1, 0] [1, 1] [1, 2] [1, 3] [1, 4] [1, 5] [1, 6] [1, 7] [1, 8] [2, 5];
     c19_set_iters: [1, 1, 0] [1, 1, 1] [1, 1, 2];
+    c19_zst: [1, 0] [1, 1] [1, 2] [1, 3] [1, 4] [1, 5] [1, 6] [1, 7] [1, 8] [1, 9] [1, 10] [1, 11];
     @deep
+    c19_zst: [2, 0] [2, 1] [2, 2] [2, 3] [2, 4] [2, 5] [2, 6] [2, 7] [2, 8] [2, 9] [2, 10] [2, 11];
     c19_nested: [2, 1] [2, 2];
     c19_map: [3, 0] [3, 1] [3, 2] [3, 3];
     c19_set: [3, 0] [3, 1] [3, 2] [3, 3];
